@@ -494,9 +494,32 @@ func c03ConcatRun(c *Ctx, maxRows int) {
 }
 
 func c03Growth(c *Ctx) {
-	k := 1 + c.Free("rows_per_table", 40)
+	sizes := []int{64, 65, 129, 257, 513, 1025}
+	k := 1 + c.Free("rows_per_table", 40+len(sizes))
+	if k > 40 {
+		k = sizes[k-41]
+	}
 	n := staticCounts{agencies: k, routes: k, stops: k, transfers: k, calendars: k, calendarDates: k, shapes: k, shapePoints: 2, trips: k, frequencies: k, stopTimes: 2 * k}
 	m := genStaticFeedN(c, false, n, nil, nil)
+	// three-level hierarchies all the way: station, platform (child of the row above), boarding area
+	// (child of the platform above) - optionally with every child listed before its parent
+	st := m.t("stops.txt")
+	for r := range st.Rows {
+		switch r % 3 {
+		case 0:
+			st.set(r, "location_type", "1")
+			st.set(r, "parent_station", "")
+		case 1, 2:
+			pid, _ := st.get(r-1, "stop_id")
+			st.set(r, "parent_station", pid)
+			st.set(r, "location_type", map[int]string{1: "0", 2: "4"}[r%3])
+		}
+	}
+	if c.Free("children_listed_first", 2) == 1 {
+		for i, j := 0, len(st.Rows)-1; i < j; i, j = i+1, j-1 {
+			st.Rows[i], st.Rows[j] = st.Rows[j], st.Rows[i]
+		}
+	}
 	c.Witness("growth_sweep")
 	c03Run(c, m, true, fmt.Sprintf("well-formed feed with %d rows per table", k))
 }
@@ -505,7 +528,7 @@ func init() {
 	register(&Check{
 		ID:    "C03",
 		Level: "model_checking",
-		Rule: "full products per table: stops 0..3 rows (thorough 0..4) x stop_id {'',S1,S2,S3} x parent {'',S1,S2,S3,SX}; routes 0..3 x agency_id {'',A,B,AX} x 6 agency configurations (single, two, duplicate ids, blank ids); trips 0..2 (thorough 3) x route/service/shape alphabets x duplicate route ids; stop_times 0..2 (thorough 3) x trip {T1,'',T2,TX} x stop {S1,'',SX,S2} x duplicate trip ids; transfers 0..3 (quick 2) x from/to alphabets x duplicate stop ids; map iteration starts 0, 1, 2 applied uniformly to every library range; plus <= 2 deviations over all id / reference cells of an 18-table-row feed parent rings / rings with a tail / chains of up to 40 stops, trips over (route, service) pairs whose concatenations collide, and a growth sweep 1..40 rows per table; " +
+		Rule: "full products per table: stops 0..3 rows (thorough 0..4) x stop_id {'',S1,S2,S3} x parent {'',S1,S2,S3,SX}; routes 0..3 x agency_id {'',A,B,AX} x 6 agency configurations (single, two, duplicate ids, blank ids); trips 0..2 (thorough 3) x route/service/shape alphabets x duplicate route ids; stop_times 0..2 (thorough 3) x trip {T1,'',T2,TX} x stop {S1,'',SX,S2} x duplicate trip ids; transfers 0..3 (quick 2) x from/to alphabets x duplicate stop ids; map iteration starts 0, 1, 2 applied uniformly to every library range; plus <= 2 deviations over all id / reference cells of an 18-table-row feed parent rings / rings with a tail / chains of up to 40 stops, trips over (route, service) pairs whose concatenations collide, and a growth sweep 1..40, 64, 65, 129, 257, 513, 1025 rows per table with three-level stop hierarchies throughout (parents first / children first); " +
 			"non-trivial = distinct archives with at least two rows in the table under study (or any deviation); oracle = pointer-identity / named-id / forest invariants",
 		Assumptions: []string{"each result entity is traced to its row through a free-text column carrying the row number", "a route that names no agency may be linked only when there is exactly one agency"},
 		Scenarios: func(tier string) []*Scenario {
